@@ -2,6 +2,8 @@ package main
 
 import (
 	"fmt"
+	"math"
+	"math/big"
 	"sort"
 	"strings"
 
@@ -124,7 +126,9 @@ func c17One(c *ctx, in c17Input, d *Driver, impl *[]string) {
 		}
 	case "compressor":
 		for i := 1; i < len(out); i++ {
-			if out[i-1].End.File+in.Near >= out[i].Begin.File {
+			// exact (no int64 wrap-around): End.File + near >= Begin.File
+			sum := new(big.Int).Add(big.NewInt(out[i-1].End.File), big.NewInt(in.Near))
+			if sum.Cmp(big.NewInt(out[i].Begin.File)) >= 0 {
 				r.fail(sig+".gap", "neighbours closer than the threshold: "+c17Show(out), in)
 				break
 			}
@@ -168,7 +172,7 @@ func c17One(c *ctx, in c17Input, d *Driver, impl *[]string) {
 func checkC17(c *ctx) {
 	r := c.res
 	r.Rule = "all lists of length 0..L (quick 4, thorough 5) of chunks over a 4-offset alphabet {0:0, 0:65535, 1:0, 3:1} (all 16 begin/end pairs: nested, touching, duplicate, zero-length, inverted) that are sorted by begin, " +
-		"x {identity, adjacent, squash, compressor(near in -1,0,1,2)}; plus random sorted lists of length up to 40 over wider offsets. Non-trivial = at least two chunks; distinct = distinct (strategy, near, list)."
+		"x {identity, adjacent, squash, compressor(near in -1,0,1,2,MaxInt64,MinInt64)}; plus random sorted lists of length up to 40 over wider offsets (compressor thresholds there include values within 60 of MaxInt64 and MinInt64; the gap oracle uses exact integer arithmetic). Non-trivial = at least two chunks; distinct = distinct (strategy, near, list)."
 	if c.replay != "" {
 		var in c17Input
 		if err := loadReplay(c.replay, &in); err != nil {
@@ -185,7 +189,7 @@ func checkC17(c *ctx) {
 		name string
 		near int64
 	}
-	strats := []strat{{"identity", 0}, {"adjacent", 0}, {"squash", 0}, {"compressor", -1}, {"compressor", 0}, {"compressor", 1}, {"compressor", 2}}
+	strats := []strat{{"identity", 0}, {"adjacent", 0}, {"squash", 0}, {"compressor", -1}, {"compressor", 0}, {"compressor", 1}, {"compressor", 2}, {"compressor", math.MaxInt64}, {"compressor", math.MinInt64}}
 	offs := []bgzf.Offset{{File: 0, Block: 0}, {File: 0, Block: 65535}, {File: 1, Block: 0}, {File: 3, Block: 1}}
 	var alphabet []bgzf.Chunk
 	for _, b := range offs {
@@ -246,7 +250,7 @@ func checkC17(c *ctx) {
 		txt := c17Show(list)
 		s := strats[c.rnd.intn(len(strats))]
 		if s.name == "compressor" {
-			s.near = int64(c.rnd.pick([]int{-3, -1, 0, 1, 2, 5, 100}))
+			s.near = []int64{-3, -1, 0, 1, 2, 5, 100, math.MaxInt64, math.MaxInt64 - 1, math.MaxInt64 - 59, math.MinInt64, math.MinInt64 + 3}[c.rnd.intn(12)]
 		}
 		in := c17Input{Strategy: s.name, Near: s.near, Chunks: txt}
 		c17One(c, in, d, &impl)
